@@ -79,7 +79,19 @@ type c20IP struct {
 	log    *[]string
 }
 
-func (p *c20IP) Trigger() []byte { return []byte{'$'} }
+// c20InlineTrig: the probes differ in their trigger sets (one has two triggers, the others one each), so that the
+// per-trigger parser lists are built from overlapping registrations.
+func c20InlineTrig(name string) []byte {
+	switch strings.TrimSuffix(name, "'") {
+	case "IT2":
+		return []byte{'$'}
+	case "IT3":
+		return []byte{'%'}
+	}
+	return []byte{'$', '%'}
+}
+
+func (p *c20IP) Trigger() []byte { return c20InlineTrig(p.name) }
 func (p *c20IP) Parse(parent ast.Node, block text.Reader, pc parser.Context) ast.Node {
 	*p.log = append(*p.log, p.name)
 	if !p.accept {
@@ -284,8 +296,11 @@ func modelInline(c c20Cfg) []string {
 			esc = true
 			continue
 		}
-		if ch == '$' {
+		if ch == '$' || ch == '%' {
 			for _, k := range s {
+				if bytes.IndexByte(c20InlineTrig(k.Name), ch) < 0 {
+					continue
+				}
 				log = append(log, k.Name)
 				if k.Script == 1 {
 					break
@@ -544,8 +559,8 @@ func runC20(r *core.Run) {
 			[]string{"$x\n", "para\n$x\n", "plain\n", "$x\n\n$y\nz\n", "plain\n\n$x\n"},
 			"block parsers BT* (trigger '$') and BF* (no trigger), each scripted to accept or decline; the Open log must equal: per line, triggered parsers ascending, then trigger-less parsers ascending merged with the built-in paragraph parser (1000), first acceptor wins"},
 		{"inline", core.Pick(r, []string{"IT1", "IT2", "IT3"}, []string{"IT1", "IT2", "IT3", "IT4"}), 2,
-			[]string{"a$b\n", "$\n", "$$ \\$ $\n", "a\n$\n"},
-			"inline parsers on trigger '$', each scripted to accept (consume one byte) or decline; the Parse log must equal: per unescaped '$', parsers ascending until the first accepts"},
+			[]string{"a$b\n", "$\n", "$$ \\$ $\n", "a\n$\n", "a$b%c\n", "%$%\n"},
+			"inline parsers IT1/IT4 on triggers '$' and '%', IT2 on '$', IT3 on '%', each scripted to accept (consume one byte) or decline; the Parse log must equal: per unescaped trigger byte, the parsers registered for that byte in ascending priority until the first accepts"},
 		{"paragraph", []string{"PT1", "PT2", "PT3"}, 1,
 			[]string{"a\n", "a\n\nb\n", "[l]: /u\n\nb\n"},
 			"paragraph transformers; the Transform log must equal: per paragraph, ascending priority, the built-in reference-definition transformer at 100 ending the chain for a paragraph it removes"},
